@@ -19,7 +19,6 @@ import random
 from fractions import Fraction
 
 import numpy as np
-import ufl
 from ufl.classes import (
     Abs, ComplexValue, Condition, Conditional, Conj, Division, FloatValue, Imag, IntValue, Product,
     Real, Sum, Zero,
@@ -143,13 +142,14 @@ def capture_tables():
 
     ET.clamp_table_small_numbers, ET.analyse_table_type, ET.is_permuted_table = clamp, analyse, permuted
     ET.equal_tables, ET.build_optimized_tables = equal, build
+    o_ibuild = INTEGRAL.build_optimized_tables  # `from … import build_optimized_tables` in integral.py
     INTEGRAL.build_optimized_tables = build
     try:
         yield records
     finally:
         ET.clamp_table_small_numbers, ET.analyse_table_type, ET.is_permuted_table = o_clamp, o_an, o_perm
         ET.equal_tables, ET.build_optimized_tables = o_eq, o_build
-        INTEGRAL.build_optimized_tables = o_build
+        INTEGRAL.build_optimized_tables = o_ibuild
 
 
 def _flat(a):
